@@ -49,6 +49,14 @@ cases = [
     parsed("-1 $ c\n     2", AND(s(1, "-"), s(2)), [W]),
     parsed("1\nc hi\n     2", AND(s(1), s(2)), [W, W]),
     parsed("1 &\n     2", AND(s(1), s(2)), [W]),
+    # parentheses around the whole geometry / a single leaf and their comments dropped (Cell._update_values)
+    parsed("(\nC fuel region\n        9)", PAR(s(9)), [W]),
+    parsed("( $ x = (y)\n        4    :8: 2      :-4 )", PAR(OR(OR(OR(s(4), s(8)), s(2)), s(4, "-"))), [W, W]),
+    parsed("(-5)", PAR(s(5, "-")), [W, op("and", s(1)), W]),
+    # operands that are the geometry of another cell that was read, ending in a comment
+    parsed("1 2 ", AND(s(1), s(2)), [dict(op("iand", AND(s(3), s(4))), xt="3 4 $ c"), op("ior", s(5)), W]),
+    parsed("1 (2 3)", AND(s(1), PAR(AND(s(2), s(3)))), [dict(op("iand", AND(s(4), s(5))), xt="4 5 $ c"), W]),
+    parsed("(1 2)", PAR(AND(s(1), s(2))), [dict(op("iand", AND(s(4), s(5))), xt="4 5 $ c"), W, W]),
 ]
 json.dump({"what": "minimised cases of the C02 defects repaired on branch fix-C02", "cases": cases},
           open(os.path.join(here, "fixed_defects.json"), "w"), indent=1, sort_keys=True)
